@@ -1765,6 +1765,9 @@ def _init_class_dict(cls):
     # _ignore_none may be inherited from a base class
     if hasattr(cls, IGNORE_NONE_VALUES):
         cls_dict[IGNORE_NONE_VALUES] = getattr(cls, IGNORE_NONE_VALUES)
+    # so may _enable_undefined_value, which also decides how a field treats None
+    if hasattr(cls, ENABLE_UNDEFINED):
+        cls_dict[ENABLE_UNDEFINED] = getattr(cls, ENABLE_UNDEFINED)
 
     return cls_dict
 
